@@ -5,6 +5,9 @@
 //!  * `wi`  — one word of a generated system/user dictionary through
 //!            `LexiconSet::get_word_info_subset` with every one of the 1 024 subsets (the model gets
 //!            the raw bytes of the word-info records, cut out of the compiled binary by the harness);
+//!  * `tokp` — the same as `tok` for configurations WITH path-rewrite plugins: the model additionally gets the plugin stack,
+//!            the class mask of every character, the real numeric parser's answers for every run of candidate nodes and the
+//!            best path of the same configuration without the plugins (`Subset.tokenizeRw`);
 //!  * `tok` — `StatefulTokenizer` with a random order of `set_mode` / `set_subset`, then tokenise; the
 //!            model gets the mode-C best path of a full-field analysis and answers the final
 //!            mode/subset and every morpheme with all its `WordInfoData` fields.
@@ -22,6 +25,8 @@ use sudachi::dic::lexicon::word_infos::WordInfo;
 use sudachi::dic::subset::InfoSubset;
 use sudachi::dic::word_id::WordId;
 use sudachi::dic::DictionaryLoader;
+use sudachi::plugin::path_rewrite::join_numeric::verif_parse;
+use std::collections::BTreeSet;
 use sudachi::prelude::*;
 
 pub const WI_SLOTS: usize = 40;
@@ -197,6 +202,14 @@ pub struct W11 {
     /// the system dictionary carries the directed ill-formed split declarations (unit longer than its parent,
     /// unit ending inside a character)
     pub d6_rows: bool,
+    /// the same configuration WITHOUT the path-rewrite plugins (its mode-C analysis is the path the plugins are given)
+    pub dic0: Option<JapaneseDictionary>,
+    /// configured path-rewrite plugins in order: ('N', enableNormalize) / ('K', minLength)
+    pub plugins: Vec<(char, usize)>,
+    pub has_numeric: bool,
+    /// system words the `wi` slots serve first (the indexed words that got boundary-length fields)
+    pub focus_words: Vec<usize>,
+    pub boundary_world: bool,
 }
 
 fn kata(rng: &mut Rng, n: usize) -> String {
@@ -247,6 +260,112 @@ fn tweak_system_rows(rng: &mut Rng, rows: &mut Vec<Row>, directed: bool) {
         if rng.chance(1, 2) { r.dic_form = rng.below(n).to_string(); }
         rows.push(r);
     }
+}
+
+/// rows that JoinNumericPlugin works on: digits and kanji numerals with the numeral POS (a few with another POS or with a
+/// normalised form that differs from the surface, so that POS id and normalised form — not the surface — decide), and the
+/// separators `,` `.`
+fn add_numeral_rows(rng: &mut Rng, rows: &mut Vec<Row>, n_ids: usize) {
+    let id = |rng: &mut Rng| rng.below(n_ids) as i32;
+    for w in ["0", "1", "2", "3", "4", "5", "一", "二", "三", "十", "百", "千", "万", "12"] {
+        let pos = if rng.chance(1, 7) { NOUN } else { NUMERAL };
+        let (l, r) = (id(rng), id(rng));
+        let mut row = Row::simple(w, l, r, rng.below(3000) as i32, pos);
+        if rng.chance(1, 6) { row.norm = (*rng.pick(&["7", "七", ",", "x"])).to_string(); }
+        if rng.chance(1, 8) { row.headword = (*rng.pick(&["9", "九"])).to_string(); }
+        rows.push(row);
+    }
+    for w in [",", "."] {
+        let (l, r) = (id(rng), id(rng));
+        let mut row = Row::simple(w, l, r, rng.below(3000) as i32, SYMBOL);
+        if rng.chance(1, 6) { row.norm = "、".into(); }
+        rows.push(row);
+    }
+    // a word that is NOT a separator but whose normalised form is one
+    let (l, r) = (id(rng), id(rng));
+    let mut row = Row::simple("、", l, r, rng.below(3000) as i32, SYMBOL);
+    row.norm = ",".into();
+    rows.push(row);
+}
+
+/// katakana dictionary words of 1-3 characters (what JoinKatakanaOovPlugin's minLength rule looks at), some with a headword
+/// that is longer/shorter than the key so that `num_codepts` and the length of the stored surface differ
+fn add_katakana_rows(rng: &mut Rng, rows: &mut Vec<Row>, n_ids: usize) {
+    let id = |rng: &mut Rng| rng.below(n_ids) as i32;
+    for w in ["ア", "イウ", "アイウ", "カ", "ウア"] {
+        let (l, r) = (id(rng), id(rng));
+        let mut row = Row::simple(w, l, r, rng.below(1000) as i32 - 600, NOUN);
+        if rng.chance(1, 3) { row.headword = (*rng.pick(&["アイウカア", "ア", "ｱ"])).to_string(); }
+        rows.push(row);
+    }
+}
+
+/// exact boundary lengths of the two variable-width encodings of a record: strings of 126/127/128/200/300 UTF-16 units
+/// (one- and two-byte length prefix; the writer switches at 127, the reader at 128) in each of headword / normalised form /
+/// reading, with and without surrogate pairs at the boundary, and id arrays of 0/1/127 elements.  Non-indexed rows plus a
+/// few indexed ones (short key, long fields) so that the analyser meets them too.
+fn add_boundary_rows(rng: &mut Rng, rows: &mut Vec<Row>) -> Vec<usize> {
+    let n = rows.len();
+    let fill = |rng: &mut Rng, units: usize, astral: bool| -> String {
+        let mut s = String::new();
+        let mut u = 0;
+        while u < units {
+            if astral && units - u >= 2 { s.push('𠮷'); u += 2; } else { s.push(*rng.pick(&['あ', 'a', '東', 'é'])); u += 1; }
+        }
+        s
+    };
+    let idx: Vec<usize> = (0..n).filter(|&i| rows[i].left >= 0 && rows[i].surface.chars().count() <= 4).take(6).collect();
+    // indexed: short key, long fields
+    for (k, &i) in idx.iter().enumerate() {
+        match k {
+            0 => rows[i].reading = fill(rng, 128, false),
+            1 => rows[i].norm = fill(rng, 127, false),
+            2 => rows[i].headword = fill(rng, 126, false),
+            3 => { rows[i].reading = fill(rng, 300, false); rows[i].norm = fill(rng, 200, true); }
+            4 => rows[i].headword = fill(rng, 128, true),
+            _ => { rows[i].norm = fill(rng, 128, false); rows[i].reading = fill(rng, 127, true); }
+        }
+    }
+    for field in 0..3 {
+        for (units, astral) in [(126usize, false), (127, false), (128, false), (200, false), (300, false), (127, true), (128, true)] {
+            let mut r = Row::simple(&rand_word(rng, WORD_CHARS, 3), -1, -1, 0, rng.below(POS.len()));
+            let v = fill(rng, units, astral);
+            match field { 0 => r.headword = v, 1 => r.norm = v, _ => r.reading = v }
+            if rng.chance(1, 2) { r.dic_form = rng.below(n).to_string(); }
+            if rng.chance(1, 2) { r.syn = "5/4294967295".into(); }
+            rows.push(r);
+        }
+    }
+    // the head-word length (byte length of the key) is written with the same one-/two-byte prefix: keys of 126/127/128/255/300
+    // bytes, not indexed; plus an indexed key of 129 bytes (43 hiragana) and a compound over it, so that mode A/B cut a unit
+    // at a two-byte head-word length
+    for bytes in [126usize, 127, 128, 255, 300] {
+        let key: String = std::iter::repeat('a').take(bytes).collect();
+        let mut r = Row::simple(&key, -1, -1, 0, rng.below(POS.len()));
+        r.headword = "x".into(); r.norm = "x".into(); r.reading = "x".into();
+        rows.push(r);
+    }
+    let long_key: String = std::iter::repeat('あ').take(43).collect();
+    let li = rows.len();
+    rows.push(Row::simple(&long_key, 0, 0, -20000, NOUN));
+    let ki = rows.len();
+    rows.push(Row::simple("京", 0, 0, 3000, NOUN));
+    let mut comp = Row::simple(&format!("{}京", long_key), 0, 0, -32000, NOUN);
+    comp.mode = 'C';
+    comp.split_a = format!("{}/{}", li, ki);
+    comp.split_b = format!("{}/{}", li, ki);
+    rows.push(comp);
+    for (ka, kb, kw, ks) in [(0usize, 1usize, 127usize, 0usize), (1, 127, 0, 1), (127, 0, 1, 127), (1, 1, 1, 1)] {
+        let mut r = Row::simple(&rand_word(rng, WORD_CHARS, 3), -1, -1, 0, rng.below(POS.len()));
+        r.mode = 'C';
+        let ids = |rng: &mut Rng, k: usize| -> String { if k == 0 { "*".into() } else { join((0..k).map(|_| rng.below(n)), "/") } };
+        r.split_a = ids(rng, ka);
+        r.split_b = ids(rng, kb);
+        r.wstruct = ids(rng, kw);
+        r.syn = if ks == 0 { "*".into() } else { join((0..ks).map(|_| rng.next() as u32), "/") };
+        rows.push(r);
+    }
+    idx
 }
 
 fn gen_user_rows(rng: &mut Rng, sys: &[Row], npos: usize, n_ids: usize) -> Vec<Row> {
@@ -354,13 +473,18 @@ pub const REBASE_SLOT0: usize = 4;
 pub const REBASE_SLOTS: usize = 15;
 pub const D6_SLOT0: usize = REBASE_SLOT0 + REBASE_SLOTS;
 pub const D6_SLOTS: usize = 4;
+pub const NUM_SLOT0: usize = D6_SLOT0 + D6_SLOTS;
+pub const NUM_SLOTS: usize = 8;
 const D6_TEXTS: [&str; D6_SLOTS] = ["東京東", "東京東", "東", "東京"];
 
 pub fn gen_w11(rng: &mut Rng, tag: &str, widx: usize) -> Result<W11, String> {
     let wd = Workdir::new(tag);
     let mut desc = vec![];
     let n_ids = rng.range(2, 5);
-    let matrix = Matrix::random(rng, n_ids, n_ids, false);
+    // every third world has a non-square connection matrix (all ids stay below both dimensions)
+    let extra_l = if widx % 3 == 1 { rng.range(1, 3) } else { 0 };
+    let matrix = Matrix::random(rng, n_ids + extra_l, n_ids, false);
+    if extra_l > 0 { desc.push("matrix:non-square".into()); }
     let size = rng.range(8, 20);
     let mut lex = gen_lexicon(rng, n_ids, size, false, true);
     // overlong surfaces make compound rows exceed the trie key limit: keep keys short
@@ -368,7 +492,14 @@ pub fn gen_w11(rng: &mut Rng, tag: &str, widx: usize) -> Result<W11, String> {
     // every fourth world (the first included) is directed: ill-formed split declarations in the system dictionary,
     // two user dictionaries, U-references inside the second one
     let directed_world = widx % 4 == 0;
+    // every fourth world (the second, ...) carries the exact boundary lengths of strings and arrays
+    let boundary_world = widx % 4 == 1;
+    // one world in twelve has the maximum number of user dictionaries (14: dictionary ids 1..=14, 15 is OOV)
+    let many_users = widx % 12 == 6;
+    let with_pr = widx % 3 == 2;
     if directed_world { add_d6_rows(rng, &mut lex.rows, n_ids); }
+    if with_pr { add_numeral_rows(rng, &mut lex.rows, n_ids); add_katakana_rows(rng, &mut lex.rows, n_ids); }
+    let focus_words = if boundary_world { add_boundary_rows(rng, &mut lex.rows) } else { vec![] };
     let csv = csv_of(&lex.rows, &lex.pos);
     let mut system = build_system(csv.as_bytes(), matrix.text().as_bytes())?;
     let sys_nosyn = widx % 4 == 3;
@@ -387,20 +518,35 @@ pub fn gen_w11(rng: &mut Rng, tag: &str, widx: usize) -> Result<W11, String> {
     }
     oov.push(simple_oov_json(rng.below(n_ids) as i64, rng.below(n_ids) as i64, rng.below(12000) as i64));
     let mut pr: Vec<String> = vec![];
-    if widx % 3 == 2 {
-        if rng.chance(2, 3) {
-            pr.push(format!(r#"{{"class":"com.worksap.nlp.sudachi.JoinNumericPlugin","enableNormalize":{}}}"#, rng.chance(1, 2)));
-        }
-        if pr.is_empty() || rng.chance(1, 2) {
-            pr.push(format!(r#"{{"class":"com.worksap.nlp.sudachi.JoinKatakanaOovPlugin","oovPOS":{},"minLength":{}}}"#, OOV_POS_JSON, rng.below(5)));
+    let mut plugins: Vec<(char, usize)> = vec![];
+    if with_pr {
+        // stacks NK, N, K, KN in turn (the first path-rewrite world is NK with enableNormalize)
+        let shape = [2usize, 0, 1, 3][(widx / 3) % 4];
+        let en = if widx == 2 { true } else { rng.chance(1, 2) };
+        // minLength 0 switches the "short dictionary word" rule off: rarely
+        let ml = if rng.chance(1, 8) { 0 } else { 1 + (widx / 3) % 3 };
+        // one JoinNumericPlugin in three has NO settings at all (enableNormalize then defaults to true)
+        let bare = widx != 2 && rng.chance(1, 3);
+        let en = en || bare;
+        let nj = if bare { r#"{"class":"com.worksap.nlp.sudachi.JoinNumericPlugin"}"#.to_string() }
+            else { format!(r#"{{"class":"com.worksap.nlp.sudachi.JoinNumericPlugin","enableNormalize":{}}}"#, en) };
+        if bare { desc.push("numeric-plugin:no-settings".into()); }
+        let kj = format!(r#"{{"class":"com.worksap.nlp.sudachi.JoinKatakanaOovPlugin","oovPOS":{},"minLength":{}}}"#, OOV_POS_JSON, ml);
+        match shape {
+            0 => { pr.push(nj); plugins.push(('N', en as usize)); }
+            1 => { pr.push(kj); plugins.push(('K', ml)); }
+            2 => { pr.push(nj); plugins.push(('N', en as usize)); pr.push(kj); plugins.push(('K', ml)); }
+            _ => { pr.push(kj); plugins.push(('K', ml)); pr.push(nj); plugins.push(('N', en as usize)); }
         }
     }
     let has_path_rewrite = !pr.is_empty();
-    desc.push(format!("path-rewrite:{}", pr.len()));
+    let has_numeric = plugins.iter().any(|p| p.0 == 'N');
+    desc.push(format!("path-rewrite:{}", plugins.iter().map(|p| p.0.to_string()).collect::<String>()));
     desc.push(format!("input-plugins:{}", input.len()));
     let cfg = config_json(&wd, &input, &oov, &pr, &[]);
+    let cfg0 = config_json(&wd, &input, &oov, &[], &[]);
 
-    let nusers = if directed_world { 2 } else { rng.below(3) };
+    let nusers = if directed_world { 2 } else if many_users { 14 } else if boundary_world { 0 } else { rng.below(3) };
     let mut rebase_texts: Vec<String> = vec![];
     let mut rows_all = vec![lex.rows.clone()];
     let mut user_bins = vec![];
@@ -413,7 +559,8 @@ pub fn gen_w11(rng: &mut Rng, tag: &str, widx: usize) -> Result<W11, String> {
                 pos.push(["名詞".into(), "固有名詞".into(), format!("ユーザ{}{}", u, e), "*".into(), "*".into(), "*".into()]);
             }
             let mut rows = gen_user_rows(rng, &lex.rows, pos.len(), n_ids);
-            if directed_world && u == 1 { rebase_texts = add_rebase_rows(rng, &mut rows, &lex.rows, pos.len(), n_ids); }
+            if many_users && u + 1 < nusers { rows.truncate(2); }
+            if (directed_world && u == 1) || (many_users && u + 1 == nusers) { rebase_texts = add_rebase_rows(rng, &mut rows, &lex.rows, pos.len(), n_ids); }
             let ucsv = csv_of(&rows, &pos);
             let mut ub = build_user(&base, ucsv.as_bytes())?;
             if rng.chance(1, 4) { strip_synonym_flag(&mut ub, false); desc.push("user-synonyms:false".into()); }
@@ -423,6 +570,8 @@ pub fn gen_w11(rng: &mut Rng, tag: &str, widx: usize) -> Result<W11, String> {
     }
     desc.push(format!("users:{}", nusers));
     if directed_world { desc.push("directed:d6-units+U-references-in-second-user-dictionary".into()); }
+    if boundary_world { desc.push("directed:boundary-lengths(strings-126/127/128/200/300,arrays-0/1/127)".into()); }
+    if many_users { desc.push("directed:14-user-dictionaries+U-references-in-the-last".into()); }
 
     let mut bins = vec![cut_records(&system, true)?];
     for ub in &user_bins { bins.push(cut_records(ub, false)?); }
@@ -434,6 +583,7 @@ pub fn gen_w11(rng: &mut Rng, tag: &str, widx: usize) -> Result<W11, String> {
         // Grammar::merge appends the user POS list
         total += b.npos;
     }
+    let dic0 = if has_path_rewrite { Some(load(&cfg0, system.clone(), user_bins.clone())?) } else { None };
     let dic = load(&cfg, system, user_bins)?;
     if dic.grammar().pos_list.len() != total {
         return Err(format!("pos bookkeeping: grammar has {} POS, harness computed {}", dic.grammar().pos_list.len(), total));
@@ -445,7 +595,7 @@ pub fn gen_w11(rng: &mut Rng, tag: &str, widx: usize) -> Result<W11, String> {
         join(pos_offsets.iter(), ","),
         nsys
     );
-    Ok(W11 { wd, dic, bins, pos_offsets, nsys, rows: rows_all, has_path_rewrite, desc, lex_payload, rebase_texts, d6_rows: directed_world })
+    Ok(W11 { wd, dic, bins, pos_offsets, nsys, rows: rows_all, has_path_rewrite, desc, lex_payload, rebase_texts, d6_rows: directed_world, dic0, plugins, has_numeric, focus_words, boundary_world })
 }
 
 fn world_for(seed: u64, widx: usize) -> Result<W11, String> {
@@ -456,6 +606,15 @@ fn world_for(seed: u64, widx: usize) -> Result<W11, String> {
 /// does the tree's `normalize` pull SURFACE in for DIC_FORM_WORD_ID (the repair of D10)?
 fn nz_variant() -> &'static str {
     if InfoSubset::DIC_FORM_WORD_ID.normalize().contains(InfoSubset::SURFACE) { "fix" } else { "cur" }
+}
+
+/// does `set_subset` add the fields the configured path-rewrite plugins read (candidate repair) or not (the tree)?
+/// Probed on the tokenizer itself: with a JoinNumericPlugin configured, `set_subset(empty)` in mode C
+fn pw_variant(w: &W11) -> &'static str {
+    if !w.has_numeric { return "cur"; }
+    let mut tok = StatefulTokenizer::new(&w.dic, Mode::C);
+    tok.set_subset(InfoSubset::empty());
+    if tok.verif_state().3.contains(InfoSubset::POS_ID | InfoSubset::NORMALIZED_FORM) { "fix" } else { "cur" }
 }
 
 // ---------------------------------------------------------------------------------------------
@@ -508,6 +667,17 @@ fn wi_case(run: &mut Run, idx: usize, w: &W11, d: usize, k: usize) {
     if !full.a.is_empty() || !full.b.is_empty() { run.bump("wi:has-splits"); }
     if full.surface.encode_utf16().count() >= 128 || full.reading.encode_utf16().count() >= 128 || full.norm.encode_utf16().count() >= 128 { run.bump("wi:two-byte-length-prefix"); }
     if full.a.len() >= 100 { run.bump("wi:array>=100"); }
+    run.bump(&format!("wi:head-word-length:{}", match full.hl { 0..=125 => "0-125", 126 => "126", 127 => "127", 128 => "128", 129..=254 => "129-254", 255 => "255", _ => "256+" }));
+    let ubucket = |u: usize| -> &'static str { match u { 0 => "0", 1..=125 => "1-125", 126 => "126", 127 => "127", 128 => "128", 129..=199 => "129-199", 200..=299 => "200-299", _ => "300+" } };
+    for (name, v) in [("surface", &full.surface), ("normalized_form", &full.norm), ("reading_form", &full.reading)] {
+        run.bump(&format!("wi:utf16-units:{}:{}", name, ubucket(v.encode_utf16().count())));
+        if v.chars().any(|c| c as u32 >= 0x10000) && v.encode_utf16().count() >= 126 { run.bump(&format!("wi:long-string-with-surrogate-pairs:{}", name)); }
+    }
+    let abucket = |n: usize| -> &'static str { match n { 0 => "0", 1 => "1", 2..=126 => "2-126", _ => "127" } };
+    for (name, n) in [("split_a", full.a.len()), ("split_b", full.b.len()), ("word_structure", full.ws.len()), ("synonym_group_ids", full.syn.len())] {
+        run.bump(&format!("wi:array-len:{}:{}", name, abucket(n)));
+    }
+    run.bump(&format!("wi:dictionary-id:{}", d));
     if d > 0 && full.pos as usize >= w.pos_offsets[d] { run.bump("wi:user-defined-pos"); }
     if d >= 2 && full.a.iter().chain(full.b.iter()).chain(full.ws.iter()).any(|&x| (x >> 28) as usize == d) {
         run.bump("wi:second-user-dictionary-word-with-U-references");
@@ -581,6 +751,8 @@ struct Morph {
     end: usize,
     bb: usize,
     be: usize,
+    cb: usize,
+    ce: usize,
     o: Obs,
     /// the accessors of `Morpheme` itself, by field
     api: [String; 10],
@@ -592,6 +764,8 @@ struct TokOut {
     modified: String,
     morphs: Vec<Morph>,
     analysed_ok: bool,
+    /// class mask of every character of the rewritten text
+    cat: Vec<u32>,
 }
 
 fn tok_state(dic: &JapaneseDictionary, mode0: Mode, ops: &[Op]) -> (Mode, u32) {
@@ -618,7 +792,9 @@ fn run_tok(dic: &JapaneseDictionary, text: &str, mode0: Mode, ops: &[Op]) -> Res
         let st = tok.verif_state();
         tok.reset().push_str(text);
         if let Err(e) = tok.do_tokenize() { return Err(err_class(&e)); }
-        let modified = tok.verif_input().verif_tables().modified;
+        let tables = tok.verif_input().verif_tables();
+        let modified = tables.modified.clone();
+        let cat = tables.mod_cat.clone();
         let mut ml = MorphemeList::empty(dic);
         if let Err(e) = ml.collect_results(&mut tok) { return Err(err_class(&e)); }
         let mut morphs = vec![];
@@ -638,9 +814,9 @@ fn run_tok(dic: &JapaneseDictionary, text: &str, mode0: Mode, ops: &[Op]) -> Res
                 join(wi.word_structure().iter().map(|w| w.as_raw()), "."),
                 join(m.synonym_group_ids().iter(), "."),
             ];
-            morphs.push(Morph { wid: m.word_id().as_raw(), begin: m.begin(), end: m.end(), bb: r.2, be: r.3, o, api });
+            morphs.push(Morph { wid: m.word_id().as_raw(), begin: m.begin(), end: m.end(), bb: r.2, be: r.3, cb: r.0, ce: r.1, o, api });
         }
-        Ok(TokOut { mode: st.4, subset: st.3.bits(), modified, morphs, analysed_ok: true })
+        Ok(TokOut { mode: st.4, subset: st.3.bits(), modified, morphs, analysed_ok: true, cat })
     })
 }
 
@@ -681,6 +857,21 @@ fn gen_ops(rng: &mut Rng, directed: usize) -> (Mode, Vec<Op>, u32) {
             2 => vec![Op::S(0), Op::M(Mode::A)],
             _ => vec![Op::M(Mode::B), Op::S(2)],
         },
+        // exactly the fields JoinNumericPlugin reads (and one less / nothing): the light fields behind them are NOT loaded
+        d if d >= NUM_SLOT0 && d < NUM_SLOT0 + NUM_SLOTS => {
+            let k = d - NUM_SLOT0;
+            if k < 5 { mode0 = Mode::C; }
+            match k {
+                0 => vec![Op::S(POS_ID | NORMALIZED_FORM)],
+                1 => vec![Op::S(SURFACE | POS_ID | NORMALIZED_FORM)],
+                2 => vec![Op::S(SURFACE)],
+                3 => vec![Op::S(0)],
+                4 => vec![Op::S(SURFACE | POS_ID)],
+                5 => vec![Op::S(POS_ID | NORMALIZED_FORM), Op::M(Mode::A)],
+                6 => vec![Op::M(Mode::B), Op::S(POS_ID | NORMALIZED_FORM)],
+                _ => vec![Op::M(Mode::C), Op::S(NORMALIZED_FORM)],
+            }
+        }
         _ => match rng.below(7) {
             0 => vec![Op::S(sub(rng))],
             1 => vec![Op::S(sub(rng)), Op::M(m(rng))],
@@ -701,15 +892,22 @@ fn show_ops(ops: &[Op]) -> String {
 }
 
 /// the property's clauses on one analysis, against the full-field analysis in the same mode
-fn tok_oracle(w: &W11, text: &str, requested: u32, out: &TokOut, full: &TokOut, ctx: &str) -> Vec<(String, String)> {
+fn tok_oracle(w: &W11, text: &str, requested: u32, out: &TokOut, full: &TokOut, ctx: &str, unfed_differs: &mut bool) -> Vec<(String, String)> {
     let mut fails = vec![];
-    let plugins_fed = !w.has_path_rewrite || requested & (SURFACE | POS_ID | NORMALIZED_FORM) == (SURFACE | POS_ID | NORMALIZED_FORM);
+    // the exact condition (C11.boundaries_subset_free_plugins): JoinKatakanaOovPlugin reads no word-info field, JoinNumericPlugin
+    // reads pos_id() and normalized_form() — loaded when the subset the tokenizer ended up with holds POS_ID and NORMALIZED_FORM
+    // (set_subset then adds SURFACE itself).  `requested` is what the caller asked for; asking for the three fields implies it.
+    let _ = requested;
+    let plugins_fed = !w.has_numeric || out.subset & (POS_ID | NORMALIZED_FORM) == (POS_ID | NORMALIZED_FORM);
     let same_shape = out.morphs.len() == full.morphs.len()
         && out.morphs.iter().zip(full.morphs.iter()).all(|(a, b)| a.begin == b.begin && a.end == b.end && a.wid == b.wid);
     if !same_shape {
         if plugins_fed {
             let sh = |t: &TokOut| t.morphs.iter().map(|m| format!("{}..{}:{:#x}", m.begin, m.end, m.wid)).collect::<Vec<_>>().join(" ");
             fails.push(("boundaries:tok".to_string(), format!("{}: morphemes [{}] differ from the full-field analysis [{}] text={:?}", ctx, sh(out), sh(full), text)));
+        } else {
+            // outside the property's condition (JoinNumericPlugin configured, POS id / normalised form not loaded): observed only
+            *unfed_differs = true;
         }
         return fails;
     }
@@ -743,6 +941,14 @@ fn world_text(rng: &mut Rng, w: &W11, maxlen: usize) -> String {
     let n = rng.range(1, maxlen);
     let short = |r: &&Row| r.surface.chars().count() <= 8 && r.left >= 0;
     while s.chars().count() < n {
+        if w.has_numeric && rng.chance(1, 3) {
+            s.push_str(*rng.pick(&["12,345", "3.14", "1,2", "0.5.", "一二三", "二千十", "1,234,567", "12", "1、2", "5,", "百万", "3.", "1.2.3", "2,0", "一,二", "12,"]));
+            continue;
+        }
+        if w.plugins.iter().any(|p| p.0 == 'K') && rng.chance(1, 4) {
+            s.push_str(*rng.pick(&["アイウ", "アアイ", "ウーア", "ァイ", "カア", "イウカ", "アxイウ", "ヴア", "イウウア", "アイウアイウ", "ウアイウ"]));
+            continue;
+        }
         match rng.below(10) {
             0..=5 => {
                 let d = rng.below(w.rows.len());
@@ -768,6 +974,14 @@ fn tok_case(run: &mut Run, idx: usize, w: &W11, slot: usize) {
             run.bump("tok:directed:ill-formed-units");
             D6_TEXTS[d - D6_SLOT0].to_string()
         }
+        d if d >= D6_SLOT0 && d < D6_SLOT0 + D6_SLOTS && w.boundary_world => {
+            run.bump("tok:directed:two-byte-head-word-length");
+            format!("{}京", std::iter::repeat('あ').take(43).collect::<String>())
+        }
+        d if d >= NUM_SLOT0 && d < NUM_SLOT0 + NUM_SLOTS && w.has_path_rewrite => {
+            run.bump("tok:directed:plugin-fields");
+            (*rng.pick(&["12,345円一二三3.14", "1,2アイウアイウ3.", "二千十イウウア12", "5,ウアイウ1、2", "0.5.百万カア", "アイウアイウ", "イウウア"])).to_string()
+        }
         _ => world_text(&mut rng, w, 12),
     };
     let (mode0, ops, requested) = gen_ops(&mut rng, slot);
@@ -781,22 +995,75 @@ fn tok_case(run: &mut Run, idx: usize, w: &W11, slot: usize) {
     run.bump(&format!("tok:ops:{}", ops.len()));
     if w.has_path_rewrite { run.bump("tok:path-rewrite-world"); }
 
-    // correspondence line (worlds without path-rewrite plugins only: the model has no plugin)
+    let pre = format!("mode={} sub={}", mode_ch(fmode), fsub);
+    let answer_of = |out: &Result<Result<TokOut, String>, String>| match out {
+        Ok(Ok(o)) => format!("ok {} morphs={}", pre, o.morphs.iter().map(|m| format!("{}:{}:{}:{}", m.wid, m.bb, m.be, show_obs(&m.o))).collect::<Vec<_>>().join(";")),
+        Ok(Err(_)) => format!("err {}", pre),
+        Err(_) => format!("PANIC {}", pre),
+    };
     if !w.has_path_rewrite {
+        // correspondence line `tok`: no path-rewrite plugin
         if let Ok(Ok(cp)) = &cpath {
             let payload = format!(
                 "nz={} {} mode0={} ops={} text={} path={}",
                 nz_variant(), w.lex_payload, mode_ch(mode0), show_ops(&ops), hex(cp.modified.as_bytes()),
                 cp.morphs.iter().map(|m| format!("{}:{}:{}", m.wid, m.bb, m.be)).collect::<Vec<_>>().join(",")
             );
-            let pre = format!("mode={} sub={}", mode_ch(fmode), fsub);
-            let answer = match &out {
-                Ok(Ok(o)) => format!("ok {} morphs={}", pre, o.morphs.iter().map(|m| format!("{}:{}:{}:{}", m.wid, m.bb, m.be, show_obs(&m.o))).collect::<Vec<_>>().join(";")),
-                Ok(Err(_)) => format!("err {}", pre),
-                Err(_) => format!("PANIC {}", pre),
-            };
+            let answer = answer_of(&out);
             let nontrivial = matches!(&out, Ok(Ok(o)) if o.morphs.len() >= 2 && o.morphs.iter().any(|m| m.wid >> 28 != 0xf));
             run.case(idx, "tok", &payload, &answer, nontrivial);
+        }
+    } else if let Some(d0) = &w.dic0 {
+        // correspondence line `tokp`: the plugins run on the word infos loaded with the tokenizer's subset.  The model gets
+        // the mode-C best path of the SAME configuration without the plugins (the lattice search cannot see them), the class
+        // masks of the text, the plugin stack and the numeric parser's answers (real parser) for every run of candidates
+        if let Ok(Ok(cp)) = &run_tok(d0, &text, Mode::C, &[]) {
+            let norm_of = |m: &Morph| -> String {
+                if m.wid >> 28 == 0xf { return cp.modified.get(m.bb..m.be).unwrap_or("").to_string(); }
+                match catch(|| w.dic.lexicon().get_word_info_subset(WordId::from_raw(m.wid), InfoSubset::from_bits_retain(fsub))) {
+                    Ok(Ok(wi)) => wi.normalized_form().to_string(),
+                    _ => String::new(),
+                }
+            };
+            let forms: Vec<String> = cp.morphs.iter().map(norm_of).collect();
+            let cand = |i: usize| -> bool {
+                let m = &cp.morphs[i];
+                forms[i] == "," || forms[i] == "." || (m.cb..m.ce.min(cp.cat.len())).any(|c| cp.cat[c] & (16 | 256) != 0)
+            };
+            let mut qs: BTreeSet<String> = BTreeSet::new();
+            qs.insert(String::new());
+            for b in 0..forms.len() {
+                let mut acc = String::new();
+                for j in b..forms.len() {
+                    if !cand(j) { break; }
+                    acc.push_str(&forms[j]);
+                    if acc.len() > 300 { break; }
+                    qs.insert(acc.clone());
+                }
+            }
+            let mut pq = vec![];
+            for q in &qs {
+                if let Ok((n, err, done, norm)) = catch(|| verif_parse(q)) {
+                    pq.push(format!("{}:{}:{}:{}:{}", hex(q.as_bytes()), n, err, done as u8, hex(norm.as_bytes())));
+                }
+            }
+            let g = w.dic.grammar();
+            let num_pos = g.get_part_of_speech_id(&POS[NUMERAL][..]).unwrap_or(u16::MAX);
+            let oov_pos = g.get_part_of_speech_id(&POS[NOUN][..]).unwrap_or(u16::MAX);
+            let plug = w.plugins.iter().map(|p| if p.0 == 'N' { format!("N:{}:{}", p.1, num_pos) } else { format!("K:{}:{}", p.1, oov_pos) }).collect::<Vec<_>>().join(";");
+            let payload = format!(
+                "nz={} pw={} nv={} {} mode0={} ops={} text={} cat={} plugins={} pq={} path={}",
+                nz_variant(), pw_variant(w), crate::c14::numeric_variant(), w.lex_payload, mode_ch(mode0), show_ops(&ops),
+                hex(cp.modified.as_bytes()), join(cp.cat.iter(), ","), plug, pq.join(";"),
+                cp.morphs.iter().map(|m| format!("{}:{}:{}:{}:{}", m.wid, m.bb, m.be, m.cb, m.ce)).collect::<Vec<_>>().join(",")
+            );
+            let answer = answer_of(&out);
+            let rewritten = matches!(&out, Ok(Ok(o)) if o.morphs.iter().any(|m| m.wid == 0xffff_ffff || (m.wid >> 28 != 0xf && m.wid & 0x0fff_ffff == 0x0fff_ffff) ));
+            let nontrivial = matches!(&out, Ok(Ok(o)) if o.morphs.len() >= 2 && o.morphs.iter().any(|m| m.wid >> 28 != 0xf));
+            run.case(idx, "tokp", &payload, &answer, nontrivial);
+            run.bump(if rewritten { "tokp:path-rewritten" } else { "tokp:path-unchanged" });
+            run.bump_by("tokp:parser-queries", pq.len() as u64);
+            run.bump(&format!("tokp:set_subset-variant:{}", pw_variant(w)));
         }
     }
     let line = format!("C11 tok idx={} (oracle) text={:?} {}", idx, text, ctx);
@@ -806,8 +1073,18 @@ fn tok_case(run: &mut Run, idx: usize, w: &W11, slot: usize) {
             run.bump(&format!("tok:morphemes:{}", o.morphs.len().min(12)));
             if o.morphs.len() != cpath.as_ref().ok().and_then(|c| c.as_ref().ok()).map_or(0, |c| c.morphs.len()) { run.bump("tok:split-changed-path"); }
             debug_assert!(o.analysed_ok);
-            for (k, what) in tok_oracle(w, &text, requested, o, fu, &ctx) {
+            let mut unfed = false;
+            for (k, what) in tok_oracle(w, &text, requested, o, fu, &ctx, &mut unfed) {
                 run.fail_with_line(idx, &line, &k, &what);
+            }
+            if w.has_numeric {
+                let fed = o.subset & (POS_ID | NORMALIZED_FORM) == (POS_ID | NORMALIZED_FORM);
+                run.bump(if fed { "tok:numeric-plugin:fields-loaded" } else if unfed { "tok:numeric-plugin:fields-NOT-loaded:boundaries-DIFFER-from-full-analysis" } else { "tok:numeric-plugin:fields-NOT-loaded:boundaries-equal" });
+                if unfed && std::env::var("C11_SHOW_UNFED").is_ok() {
+                    eprintln!("C11 unfed: {} text={:?}: [{}] vs full [{}]", ctx, text,
+                        o.morphs.iter().map(|m| format!("{}..{}", m.begin, m.end)).collect::<Vec<_>>().join(" "),
+                        fu.morphs.iter().map(|m| format!("{}..{}", m.begin, m.end)).collect::<Vec<_>>().join(" "));
+                }
             }
             // surfaces partition the input whatever the subset
             let bad = {
@@ -855,7 +1132,10 @@ fn tok_sweep(run: &mut Run, idx: usize, w: &W11) {
             match run_tok(&w.dic, &text, mode0, &ops) {
                 Ok(Ok(o)) => {
                     run.bump_by("sweep:analyses", 1);
-                    for (k, what) in tok_oracle(w, &text, s, &o, &full, &ctx).into_iter().take(1) {
+                    let mut unfed = false;
+                    let fails = tok_oracle(w, &text, s, &o, &full, &ctx, &mut unfed);
+                    if unfed { run.bump_by("sweep:numeric-plugin:fields-NOT-loaded:boundaries-DIFFER", 1); }
+                    for (k, what) in fails.into_iter().take(1) {
                         if !run.failures.iter().any(|f| f.index == idx && f.key == k) {
                             run.fail_with_line(idx, &line, &k, &what);
                         }
@@ -878,7 +1158,11 @@ U-references into it, requests with exactly one of SPLIT_A/SPLIT_B/WORD_STRUCTUR
 and ill-formed split declarations that NodeSplitIterator clamps / moves back to a character start) with forms equal/different from the headword, dictionary forms none/self/other, splits, word structure, synonym ids, \
 1- and 2-byte length prefixes, arrays up to 127; per world 40 `wi` slots (one word x all 1024 subsets through \
 LexiconSet::get_word_info_subset) and 88 `tok` slots (random order of set_mode/set_subset, random text, all modes) plus one \
-oracle-only sweep of 1024 subsets x 3 modes; non-trivial wi = word with >= 2 optional fields present, tok = >= 2 morphemes with a \
+oracle-only sweep of 1024 subsets x 3 modes; every third world has path-rewrite plugins (stacks NK, N, K, KN in turn, numerals and katakana \
+words in the dictionary and in the texts, 8 directed requests around {POS_ID, NORMALIZED_FORM}) and sends `tokp` lines (plugin stack, class \
+masks, numeric parser answers, plugin-free best path); every fourth world carries boundary lengths: strings of 126/127/128/200/300 UTF-16 units \
+in headword / normalised form / reading, keys of 126/127/128/255/300 bytes (two-byte head-word length), an indexed 129-byte key split in A/B, \
+arrays of 0/1/127 ids; one world in twelve has 14 user dictionaries; every third a non-square matrix; non-trivial wi = word with >= 2 optional fields present, tok = >= 2 morphemes with a \
 dictionary word; distinct by line".into();
     let n = run.opts.count;
     // case 0: normalize on every mask
@@ -918,8 +1202,16 @@ dictionary word; distinct by line".into();
             let mut words: Vec<(usize, usize)> = vec![];
             for d in 1..w.bins.len() { for k in 0..w.bins[d].recs.len() { words.push((d, k)); } }
             let nsysw = w.bins[0].recs.len();
-            // system words from the end (wild rows) and from the start alternately
-            for j in 0..nsysw { let k = if j % 2 == 0 { nsysw - 1 - j / 2 } else { j / 2 }; words.push((0, k)); }
+            // many small user dictionaries: the words of the LAST one (its U-references must be re-stamped with 14) first
+            if w.bins.len() > 4 { let last = w.bins.len() - 1; words.sort_by_key(|&(d, _)| if d == last { 0 } else { 1 }); }
+            if w.boundary_world {
+                // the indexed words with boundary-length fields, then from the end (boundary rows, wild rows)
+                for &k in &w.focus_words { words.push((0, k)); }
+                for j in 0..nsysw { let k = nsysw - 1 - j; if !w.focus_words.contains(&k) { words.push((0, k)); } }
+            } else {
+                // system words from the end (wild rows) and from the start alternately
+                for j in 0..nsysw { let k = if j % 2 == 0 { nsysw - 1 - j / 2 } else { j / 2 }; words.push((0, k)); }
+            }
             if slot < words.len() {
                 let (d, k) = words[slot];
                 wi_case(run, idx, w, d, k);
